@@ -95,6 +95,10 @@ ScanFails(j, P) ==
       (IF missI = {} THEN {}
        ELSE IF \E e \in missI : e \in exp.extimp THEN {<<"C10", "import-of-external-module-missing", missI>>}
        ELSE IF c.limit # 0 /\ c.excluded = {} THEN {<<"C02,C09", "import-statement-without-edge-under-level-limit", missI>>}
+       \* an absolute name written relative to module_path's parent directory (C04: both spellings resolve)
+       ELSE IF \E e \in missI : \E s \in StmtsOf(P, c) : s.file = e[1] /\ s.level = 0 /\ Adjust(P, c, s.module) # s.module
+                                                          /\ e[2] \in Named(P, c, s).must
+            THEN {<<"C02,C04", "parent-relative-absolute-import-does-not-resolve", missI>>}
        ELSE {<<"C02", "import-statement-without-edge", [edges |-> missI, positions |-> UNION {pos(e) : e \in missI}]>>})
       \cup
       (IF extraI = {} THEN {}
